@@ -30,7 +30,8 @@ fn f_c02(_r: &CaseResult, d: &Diff) -> bool {
     d.observable.starts_with("flag")
 }
 fn f_c03(r: &CaseResult, d: &Diff) -> bool {
-    !r.is_data && d.observable == "rip"
+    // a transfer the emulator refuses where hardware branches did not go where hardware goes
+    !r.is_data && (d.observable == "rip" || d.observable == "outcome:emu_err/native_completed")
 }
 fn f_c04(_r: &CaseResult, d: &Diff) -> bool {
     !d.observable.starts_with("flag")
@@ -315,6 +316,9 @@ pub fn c06(tier: Tier) -> i32 {
     let out = run_nat(f_c06, cap(&tier), &|sink| {
         s5_division(&plan, sink);
         s6_placement(&plan, sink);
+        // every addressing form with wrapping / truncating value patterns: an effective address
+        // computed differently from hardware shows as a failure where the CPU completes
+        s3_addressing(&plan, sink);
         s1_values_flags(&plan, Scope::AllDirect, sink);
         s1d_shape_diversity(&plan, Scope::AllDirect, sink);
         s9_encoding(&plan, Scope::AllDirect, sink);
@@ -325,7 +329,7 @@ pub fn c06(tier: Tier) -> i32 {
         }
     });
     run.findings.merge(out.findings.clone());
-    let mut sweeps = vec!["S0", "S5", "S6", "S1", "S1d", "S9", "S2", "S4"];
+    let mut sweeps = vec!["S0", "S5", "S6", "S3", "S1", "S1d", "S9", "S2", "S4"];
     if tier.is_thorough() {
         sweeps.push("S1'");
     }
